@@ -14,7 +14,22 @@ import (
 	"pgregory.net/rapid"
 )
 
+// n09GenBigVal: a value whose log record does not fit the sender's 4096-byte batch buffer (64 + 6 + payload > 4096),
+// or sits right at that boundary.
+func n09GenBigVal(t *rapid.T) *n09Val {
+	v := &n09Val{Op: rapid.SampledFrom([]string{"set", "set", "append"}).Draw(t, "bigop"), N: int64(rapid.IntRange(0, 1000).Draw(t, "bigseed"))}
+	if rapid.Bool().Draw(t, "boundary") {
+		v.L = rapid.IntRange(4000, 4100).Draw(t, "bigLen")
+	} else {
+		v.L = rapid.IntRange(5000, 9000).Draw(t, "bigLen")
+	}
+	return v
+}
+
 func n09GenVal(t *rapid.T) *n09Val {
+	if sc := rapid.IntRange(0, 99).Draw(t, "sizeclass"); sc >= 48 && sc < 52 {
+		return n09GenBigVal(t)
+	}
 	switch rapid.IntRange(0, 2).Draw(t, "valop") {
 	case 0:
 		return &n09Val{Op: "set", B: rapid.SliceOfN(rapid.Byte(), 0, 12).Draw(t, "setb")}
@@ -87,6 +102,29 @@ func n09GenCluster(t *rapid.T) *n09Case {
 		if i == firstJoin && !joined[0] {
 			c.Ops = append(c.Ops, n09Op{K: "join", F: 0})
 			joined[0] = true
+		}
+		if b := rapid.IntRange(0, 199).Draw(t, "burst"); b >= 95 && b < 102 { // a window in the middle: rapid favours the ends of a range
+			// a burst on one key: holder a has it, some small records, a releases it and holder b takes it with a big
+			// value - with the sender's socket write held for the duration (half of the time), so that the records
+			// leave in one batch
+			db, key := rapid.SampledFrom([]int{0, 0, 1}).Draw(t, "bdb"), rapid.IntRange(0, keys-1).Draw(t, "bkey")
+			a := rapid.IntRange(0, 2).Draw(t, "ba")
+			b := (a + 1 + rapid.IntRange(0, 1).Draw(t, "bb")) % 3
+			held := rapid.Bool().Draw(t, "bheld")
+			c.Ops = append(c.Ops, n09Op{K: "lock", Db: db, Key: key, Id: a, E: 300, EF: 0x0100})
+			if held {
+				c.Ops = append(c.Ops, n09Op{K: "hold"})
+			}
+			for j, n := 0, rapid.IntRange(0, 3).Draw(t, "bsmall"); j < n; j++ {
+				c.Ops = append(c.Ops, n09GenLock(t, keys))
+			}
+			c.Ops = append(c.Ops, n09Op{K: "unlock", Db: db, Key: key, Id: a})
+			c.Ops = append(c.Ops, n09Op{K: "lock", Db: db, Key: key, Id: b, E: 300, EF: 0x0100, V: n09GenBigVal(t)})
+			if held {
+				c.Ops = append(c.Ops, n09Op{K: "unhold"})
+			}
+			holds = append(holds, hold{db, key, b})
+			continue
 		}
 		r := rapid.IntRange(0, 99).Draw(t, "r")
 		switch {
@@ -181,6 +219,8 @@ func n09ClusterClasses(info n09Info) []string {
 	add(info.resumes > 0, "resume by id")
 	add(info.rotations > 0, "log rotation")
 	add(info.leaderRestarts > 0, "leader restarted")
+	add(info.bigValues > 0, "value larger than the sender's batch buffer (or at its boundary)")
+	add(info.holds > 0, "burst sent while the leader's socket write was held")
 	add(info.staleJoins > 0, "rejoin with stale directory")
 	add(info.wipeJoins > 0, "rejoin with emptied directory")
 	add(info.syncs > 1, "intermediate quiescence checks")
